@@ -476,7 +476,12 @@ func validChain(s string, pe *errchain.PlError, m *model, rd rendered, own map[s
 	reach := m.reach(s)
 	var reasons []string
 	// (a) a broken reachable script, its own error verbatim at the front
+	rk := make([]string, 0, len(reach))
 	for c := range reach {
+		rk = append(rk, c)
+	}
+	sort.Strings(rk)
+	for _, c := range rk {
 		for _, call := range m.calls[c] {
 			r := call.Target
 			o := own[r]
